@@ -160,6 +160,8 @@ def one(src, xs):
         try:
             rec["in_grammar"] = S.in_grammar(tree.body)
             rec["slice_in_tuple"] = S.has_slice_in_tuple(tree.body)
+            if not rec["in_grammar"]:
+                rec["offender"] = S.offender(tree.body)
             rec["nodes"] = sum(1 for _ in ast.walk(tree.body))
         except RecursionError:
             rec["in_grammar"] = None
@@ -187,9 +189,12 @@ def one(src, xs):
                 RecTuple.log = []
                 tc = guarded(lambda: eval(code, {"__builtins__": {}}, {"x": RecTuple(xe)}))
                 lc = RecTuple.log
-                r["trace_impl"] = li
-                r["trace_cpy"] = lc
                 r["traced_equal"] = (ti == tc)
+                if li != lc or ti != tc:
+                    r["trace_impl"] = li
+                    r["trace_cpy"] = lc
+                else:
+                    r["trace_len"] = len(li)
             rec["evals"].append(r)
     return rec
 
